@@ -1034,6 +1034,147 @@ def run_asm_dtype(case):
     return r
 
 
+# ---- slice: call histories on ONE assembler instance (per-call state must not leak) ------------
+HREQ = ("default", "getitem", "fill-nan", "fill--1", "fill-100000", "fill0-f4", "dtype", "planes")
+HREQ_FILL = {"fill-nan": math.nan, "fill--1": -1, "fill-100000": 100000}
+HREQ_CORE = ("default", "getitem", "fill-nan", "fill-100000", "dtype")  # menu of the triples (quick)
+H_STATES2 = (  # 2 tiles: chunks ((2,), (1, 2))
+    ("i2", None), ("i2", "i2"), (None, "i2"), ("u1", None), ("u1", "u1"), ("f4", None), ("f4", "f4"),
+    ("u1", "i2"), ("i2", "f4"), ("u1", "f4"),
+)
+H_STATES4 = (  # 4 tiles: chunks ((1, 2), (2, 1))
+    ("i2", None, None, "i2"), ("u1", "i2", None, "f4"), ("u1", None, "i2", None),
+)
+H_CFGS = ("2d", "time+yx")
+
+
+def gen_asm_hist(tier):
+    def gen():
+        hist = [(a,) for a in HREQ]
+        hist += [(a, b) for a in HREQ for b in HREQ]
+        menu3 = HREQ_CORE if tier == "quick" else HREQ
+        hist += [(a, b, c) for a in menu3 for b in menu3 for c in menu3]
+        scenes = [(((2,), (1, 2)), st) for st in H_STATES2] + [(((1, 2), (2, 1)), st) for st in H_STATES4]
+        for (chy, chx), states in scenes:
+            for cfg in H_CFGS:
+                for h in hist:
+                    yield (chy, chx, states, cfg, h)
+
+    return gen
+
+
+def _do_request(name, ba, win):
+    if name == "default":
+        return ba.extract()
+    if name == "getitem":
+        return ba[win]
+    if name in HREQ_FILL:
+        return ba.extract(HREQ_FILL[name])
+    if name == "fill0-f4":
+        return ba.extract(0, dtype="float32")
+    if name == "dtype":
+        return np.dtype(ba.dtype)
+    if name == "planes":
+        return [(p, ba[p]) for p in ba.planes_yx()]
+    raise ValueError(name)
+
+
+def _same_array(a, b):
+    return (
+        isinstance(a, np.ndarray) and isinstance(b, np.ndarray) and a.dtype == b.dtype and a.shape == b.shape
+        and bool(np.array_equal(a.astype("float64"), b.astype("float64"), equal_nan=True))
+    )
+
+
+def _same_answer(a, b):
+    if isinstance(a, np.ndarray) or isinstance(b, np.ndarray):
+        return _same_array(a, b)
+    if isinstance(a, list) and isinstance(b, list):
+        return len(a) == len(b) and all(pa == pb and _same_array(xa, xb) for (pa, xa), (pb, xb) in zip(a, b))
+    return a == b
+
+
+def _show(ans):
+    if isinstance(ans, np.ndarray):
+        return f"{ans.dtype} {ans.tolist()}"
+    if isinstance(ans, list):
+        return "[" + "; ".join(f"{p}: {_show(x)}" for p, x in ans) + "]"
+    return repr(ans)
+
+
+def run_asm_hist(case):
+    chy, chx, states, cfg, hist = case
+    blocks, V, P, axis, full = mosaic(chy, chx, states, cfg, extremes=True)
+    _, pre, suf = CFGS[cfg]
+    bdt = [b.dtype for b in blocks.values()]
+    C = np.result_type(*bdt)
+    nd = len(full)
+    allp = tuple(slice(None) for _ in pre)
+    win = (*allp, slice(None), slice(1, None))
+    Edef = expected_full(V, P, math.nan if C.kind == "f" else 0.0)
+    widen = [n in HREQ_FILL and not fill_fits(HREQ_FILL[n], C) for n in hist]
+    hcls = "widening-request-then-more" if any(widen[:-1]) else ("widening-last" if widen[-1] else "no-widening")
+    r = R(outcome=f"{C.name}:{cfg}:len{len(hist)}:{hcls}", nontrivial=len(hist) > 1)
+
+    def per_request(name, ans):
+        """the single-request oracle (numpy mosaic), independent of any other assembler instance"""
+        if name == "dtype":
+            return None if ans == C else f"dtype {ans}, blocks promote to {C}"
+        if name == "planes":
+            want_idx = sorted(tuple(ip) for ip in np.ndindex(*pre))
+            got_idx = sorted(tuple(v for v in p if not isinstance(v, slice)) for p, _ in ans)
+            if got_idx != want_idx or any(len(p) != nd for p, _ in ans):
+                return f"planes {[p for p, _ in ans]}"
+            for p, x in ans:
+                if not (same_values(x, Edef[np_index(p, axis, full)]) and x.dtype == C):
+                    return f"plane {p}: {_show(x)}"
+            return None
+        if name == "default":
+            exp, must = Edef, C
+        elif name == "getitem":
+            exp, must = Edef[np_index(win, axis, full)], C
+        elif name == "fill0-f4":
+            exp, must = expected_full(V, P, 0.0), np.dtype("float32")
+        else:
+            fill = HREQ_FILL[name]
+            exp, must = expected_full(V, P, float(fill)), (C if fill_fits(fill, C) else None)
+        if not same_values(ans, exp):
+            return f"{_show(ans)}; numpy mosaic {exp.tolist()}"
+        if must is not None and ans.dtype != must:
+            return f"dtype {ans.dtype}, want {must}"
+        return None
+
+    ba = BlockAssembler(blocks, (chy, chx), axis=axis)
+    before = []
+    changed = False
+    for name in hist:
+        prev = "+".join(before) if before else "nothing"
+        # history class for the finding key: the first earlier request whose fill does not fit the block dtype
+        # (the only kind that computes a wider per-call dtype), else the immediately preceding request
+        wide = [n for n in before if n in HREQ_FILL and not fill_fits(HREQ_FILL[n], C)]
+        hk = f"after-widening({wide[0]})" if wide else (f"after({before[-1]})" if before else "first-request")
+        st, ans = call(_do_request, name, ba, win)
+        fresh = _do_request(name, BlockAssembler(blocks, (chy, chx), axis=axis), win)
+        if st != "ok":
+            r.fail(f"BlockAssembler:history:{hk}:{name}:raises:{C.name}",
+                   f"{case}: request '{name}' after [{prev}] on one instance raised {ans}")
+            break
+        if not _same_answer(ans, fresh):
+            r.fail(f"BlockAssembler:history:{hk}:{name}:differs-from-fresh-instance:{C.name}",
+                   f"{case}: request '{name}' after [{prev}] on one instance -> {_show(ans)}; "
+                   f"a fresh assembler answers {_show(fresh)}")
+        why = per_request(name, ans)
+        if why is not None and _same_answer(ans, fresh):  # a divergence from the fresh instance is already reported
+            r.fail(f"BlockAssembler:history:{hk}:{name}:wrong-answer:{C.name}",
+                   f"{case}: request '{name}' after [{prev}]: {why}")
+        before.append(name)
+        if np.dtype(ba.dtype) != C and not changed:
+            changed = True  # reported once; later requests are still compared with a fresh instance
+            r.fail(f"BlockAssembler:history:ba.dtype-changed-by({name}):{C.name}",
+                   f"{case}: after [{'+'.join(before)}] ba.dtype is {ba.dtype}, was {C}")
+    return r
+
+
 # ---------------------------------------------------------------------------------------------
 def slices(tier):
     tl = gen_tilings(tier)
@@ -1066,6 +1207,9 @@ def slices(tier):
                  "N-d index forms: ints/slices on leading/trailing axes, short tuples, planes_yx"),
         e1.Slice("asm-dtype-fill", gen_asm_dtype(tier), run_asm_dtype,
                  "per-block dtype (incl. mixed, absent) x fill value x explicit dtype"),
+        e1.Slice("asm-history", gen_asm_hist(tier), run_asm_hist,
+                 "call histories on ONE assembler: every single request, ordered pair and triples from a menu of 8 "
+                 "requests x block-dtype/presence scenes x {2-d, time+yx}; each answer vs a fresh instance and vs numpy"),
     ]
 
 
@@ -1091,6 +1235,9 @@ def main(ctx):
         "assembler_windows": "every 0<=a<=b<=N per axis; every spelling in {None}+[-N,N] and ints on 3 layouts",
         "assembler_axes": list(CFGS),
         "dtypes": list(DT.values()), "fills": list(FILLS), "explicit_dtype": [str(d) for d in OUT_DT],
+        "assembler_histories": f"requests {list(HREQ)}: all singles, all ordered pairs, all triples over "
+                               f"{list(HREQ_CORE) if q else list(HREQ)}; {len(H_STATES2) + len(H_STATES4)} block scenes x "
+                               f"{list(H_CFGS)}",
     }
     ctx.assumptions = [
         "tile rectangles and tile sizes are >= 1; chunk tuples have positive parts",
